@@ -749,3 +749,13 @@ def impl_method(facts, trait_prefix, self_ty, method):
                 if n == method:
                     return k
     return None
+
+
+def inherent_method(facts, self_ty, method):
+    """fn key of an inherent method of a local type, wherever its impl block lives"""
+    for im in facts['impls']:
+        if im['trait'] is None and im['self'] == self_ty:
+            for n, k in im['methods']:
+                if n == method:
+                    return k
+    return None
